@@ -4,7 +4,7 @@
    strings compared otherwise. *)
 From Coq Require Import NArith ZArith.
 From Stam Require Import Base.Tac Model.Offset Model.Utf8 Model.Store Model.Validate
-     Spec.StoreSpec Spec.ValidateSpec Proofs.StoreInv Proofs.StoreSets Proofs.ValidateJoin Proofs.ValidateProtect.
+     Spec.StoreSpec Spec.ValidateSpec Proofs.StoreInv Proofs.StoreSets Proofs.ValidateJoin Proofs.ValidateProtect Proofs.ValidateReload.
 
 (** W s: every invariant of a reachable store (reverse indices exact and chronological, dataset
     invariants incl. the deduplicated vocabulary, exact id maps, no dangling reference).
@@ -126,12 +126,44 @@ Example C18_nonvacuous :
   /\ text_join [32%N] [[]; [97%N]] = [97%N].
 Proof. cbv zeta. split; [repeat constructor|]. repeat split; vm_compute; reflexivity. Qed.
 
+(* loading the store's own serialisation against a resource of unchanged length gives every text
+   selector the selection it had, whatever the alignment of its cursors; relative selectors
+   likewise when the parent kept its selection *)
+Theorem C18_same_length_same_selection : forall s lens singles r t m rs b e,
+  get_res s r = Some rs -> nth_error (r_sels rs) t = Some (b, e) ->
+  b <= e -> e <= r_len rs -> lens r = r_len rs ->
+  reresolve_leaf s lens singles (LText r t m) = Some (Some (r, (b, e))).
+Proof. exact reresolve_text_same. Qed.
+
+Theorem C18_same_parent_same_selection : forall s lens singles p r t m rs pa pr pt pb pe b e,
+  get_res s r = Some rs -> get_ann s p = Some pa -> nth_error (r_sels rs) t = Some (b, e) ->
+  ann_textsel s pa = Some (pr, pt, (pb, pe)) ->
+  alookup p singles = Some (pr, (pb, pe)) ->
+  pb <= b -> b <= e -> e <= pe ->
+  reresolve_leaf s lens singles (LAnnText p r t m) = Some (Some (r, (b, e))).
+Proof. exact reresolve_relative_same. Qed.
+
 (* Known class: when the offsets are resolved again against a text of another length, the strings
    an annotation selects may differ while their joins coincide (a Multi selection [0,1)+[2,5) of
    "aaaaaa" with end-aligned cursors becomes [0,2)+[3,5) of "aaaaaaa"); the stored reference is
    the joined string, so validation cannot tell.  With the same lengths this cannot happen
    (C18_join_determines_pieces). *)
 Definition Known_C18_regrouped (d : text) (old new : list text) : bool := regrouped d old new.
+
+(* offsets resolved against a text of another length (insertions, deletions): outside the class
+   the verdict is still "invalid exactly when a selected string differs" *)
+Theorem C18_other_length_guarded : forall H s a ps ps',
+  refs_from H s a ps -> some_text ps = true ->
+  (let d := odflt (ann_vstr s a KDEL) in H (text_join d ps) = H (text_join d ps') -> text_join d ps = text_join d ps') ->
+  Known_C18_regrouped (odflt (ann_vstr s a KDEL)) ps ps' = false ->
+  by_reference H s a ps' = Some (texts_eqb ps ps').
+Proof. exact refs_detect_guarded. Qed.
+
+Theorem Known_C18_regrouped_refuted : forall H s a ps ps',
+  refs_from H s a ps -> some_text ps = true ->
+  Known_C18_regrouped (odflt (ann_vstr s a KDEL)) ps ps' = true ->
+  by_reference H s a ps' = Some true /\ ps <> ps'.
+Proof. exact refs_regrouped_refuted. Qed.
 
 Lemma Known_C18_regrouped_witness :
   let a := 97%N in
